@@ -9,7 +9,6 @@ import (
 	"net/http"
 	"net/url"
 	"runtime/debug"
-	"sort"
 	"strings"
 	"sync"
 	"testing"
@@ -362,8 +361,7 @@ func genC12(t *rapid.T) c12Case {
 		nu := rapid.IntRange(1, 3).Draw(t, "nunary")
 		nst := rapid.IntRange(1, 3).Draw(t, "nstream")
 		s := c12Svc{Name: n, Unary: append([]string{}, ms[:nu]...), Streams: append([]string{}, ms[nu:nu+nst]...)}
-		sort.Strings(s.Unary)
-		sort.Strings(s.Streams)
+		// (declaration order is whatever the permutation gave: method tables are not sorted)
 		c.Services = append(c.Services, s)
 		for _, m := range s.Unary {
 			all = append(all, "/"+n+"/"+m)
